@@ -8,7 +8,8 @@ from .. import gen, layout
 ALPHABET = ["a", "i", "f", "0", "x", "1", "'", "/", "\n", " ", "<", "=", ":", "é", "\\", "n"]
 FRAGS = ["proc ", "type ", "var ", "if", "else ", "while ", "array ", "of ", "ref ", "int", "x", "y", "main", "(", ")", "[", "]", "{", "}", ";", ":", ":=",
          "=", "#", "<", "<=", ">", ">=", "+", "-", "*", "/", ",", "0", "12", "0x1F", "0x", "'a'", "'", "'\\n'", "// c\n", "//", "// tail", " ", "\n", "  ", "ä", "€", "😀",
-         "_", "1x", "\r\n", "\t", "4294967296", "0xFFFFFFFFF", "'\\", "\\n", "''", "'''"]
+         "_", "1x", "\r\n", "\t", "4294967296", "0xFFFFFFFFF", "'\\", "\\n", "''", "'''",
+         "\x0b", "\x0c", "\x85", "\xa0", "\u2028", "\u3000", "\ufeff", "\x0c ", " \xa0"]       # white space for Unicode but not for SPL; byte order mark
 
 
 def worker_enum(args):
